@@ -42,8 +42,9 @@ src,dst,suite,w,wo,q,t,fp,prop=sys.argv[1:]
 m=json.load(open(src))
 try:
     old=json.load(open(dst))
-    if "strengthening" in old:
-        m["strengthening"]=old["strengthening"]   # notes survive a re-confirmation
+    for k in ("strengthening","first_contact"):
+        if k in old:
+            m[k]=old[k]   # notes survive a re-confirmation
 except Exception:
     pass
 m["confirmed_by_lead"]={"suite_with_change":suite,"demo_exit_with_change":int(w),"demo_exit_without_change":int(wo),
